@@ -85,7 +85,9 @@ CLAIMED = {
     "C08": ("Lean 4 theorems about an object-model layer mirroring the class runtime (vtable built base-first, findMethod chain walk, "
             "method bodies run in the declaring class's context, constructor chain, destructor chain, per-class static slots, cost-based "
             "overload scan, per-argument generic specialisation) for every linear hierarchy / candidate list + exact correspondence: "
-            "programs rendered from random (hierarchy, action list) descriptions must print the model's trace",
+            "programs rendered from random (hierarchy, action list) descriptions must print the model's trace; object lifetime on arbitrary "
+            "graphs: reference-count model (Life.Model) with a credit invariant proving counts exact and 'destructor has run iff unreferenced' "
+            "in every reachable state, tied by heap programs with destructors",
             "Proof on the model for every hierarchy depth, override/super pattern and candidate list; tied to the evaluator and analyser by "
             "running rendered programs through the real pipeline and comparing every echo line with Obj.programTrace / Obj.pick / Obj.genRun. "
             "PARTIAL: linear hierarchies; generics modelled only as per-argument specialisation counters.",
